@@ -112,6 +112,7 @@ Plan parse_plan(const std::string &text) {
             p.longnames = kv.u64("longnames", 0);
             p.port = (int)kv.u64("port", 0);
             p.addr = (int)kv.u64("addr", 0);
+            p.env_on = kv.u64("env", 0);
             p.stackfill = (int)kv.u64("stackfill", 0xA5);
         } else if (kv.op == "can") {
             CanW w;
@@ -510,6 +511,7 @@ void exec_plan(const std::string &text, bool verbose) {
     w.lat_lo = p.lat_lo; w.lat_hi = p.lat_hi; w.cost_lo = p.cost_lo; w.cost_hi = p.cost_hi;
     w.rxq_cap = p.qcap;
     w.can_read0_p = p.read0;
+    w.env_on = p.env_on;
     w.can_txq_cap = p.cantxq;
     w.clock_gran = p.clkgran ? p.clkgran : 1;
     w.t_origin = 1700000000ULL * 1000000000ULL + (p.rseed % 1000000007ULL) * 1000ULL;
